@@ -88,7 +88,9 @@ BIG_HEX = ["0", "41", "10FFFF", "110000", "D800", "DFFF", "1F600", "0000041", "F
 IDS = ["a", "b", "abc", "$", "_", "a1", "é", "aé", "\u03c0", "a\u200c", "a\u200d", "\U0001D4D1", "x\U0001D7D8",
        "\\u0061", "\\u{62}", "a\\u0031", "\\uD835\\uDCD1", "\\u{1D4D1}", "1a", "", "a-b", "a b", "😀", "a😀",
        "\\uD800", "\\u{110000}", "\\u00e9", "a\\u{200d}", "\u00aa", "\u00b7", "a\u00b7", "\u2118", "a\u0300",
-       "\u0300", "\\u{8000000000000041}", "k", "A", "Z9_$"]
+       "\u0300", "\\u{8000000000000041}", "k", "A", "Z9_$",
+       # code points that END a range of the ID_Start / ID_Continue tables or form a one-element range; a lone lead surrogate escape before another escape
+       "\u00b5", "\u00ba", "\u00f6", "gr\u00f6\u00dfe", "\u02c1", "\u00d6", "\u02d1", "\u037f", "a\u0387", "\u2071", "\uffdc", "\\uD800\\u0041", "\\uDBFF\\u{41}", "a\\uD83D\\u0062"]
 ATOMS = ["a", "b", "1", ".", "é", ASTRAL, "\\d", "\\D", "\\w", "\\s", "\\b", "\\B", "^", "$", "\\n", "\\t", "\\cA", "\\c1",
          "\\c", "\\0", "\\00", "\\01", "\\08", "\\1", "\\2", "\\9", "\\10", "\\377", "\\400", "\\8", "\\x41", "\\x4",
          "\\xg", "\\u0041", "\\u004", "\\uD83D\\uDE00", "\\uD83D", "\\uDE00", "\\uD800", "\\uDFFF\\uD800", "\\u{41}",
@@ -784,6 +786,7 @@ def gen_backref_structured(rng, n):
 # character classes
 CLASS_ALPHABET = list("a[]^-\\dbc1z(")
 CLASS_ATOMS = ["a", "z", "0", "9", "-", "^", "é", "\U0001F600", "\U0001F601", "\\d", "\\w", "\\S", "\\b", "\\B", "\\-", "\\]", "\\c1", "\\c_",
+               "\\uD800\\u0041", "\\uDBFF\\uFFFF", "\\uE000", "\\uD83D\\u{41}", "\\uD800", "\\uD83D\\uDE00",
                "\\cA", "\\c", "\\x41", "\\x4", "\\u0041", "\\u{41}", "\\u{1F600}", "\\uD83D\\uDE00", "\\uD83D", "\\uDE00", "\\0", "\\1",
                "\\12", "\\8", "\\00", "\\377", "\\400", "\\k", "[", "(", ")", "{", "\\a", "\\e", "\\q", "\\/", ".", "*", "$", "\\n", "\\r",
                "\\t", "\\f", "\\v", "\\u", "\\_", "\\\\"]
@@ -855,7 +858,9 @@ def compare_all(tier="quick", seed=1):
     rng = random.Random(seed)
     build_harness("release")
     # regenerate the unicode tables from /repo (written only when they change), rebuild the model, re-extract
-    sh([sys.executable, os.path.join(ROOT, "translate", "gen_unicode.py")], timeout=120)
+    # (a translator failure -- the lookup functions of unicode.rs changed -- is an obligation of the check, not an infrastructure
+    #  error: the comparison goes on with the tables generated last)
+    sh([sys.executable, os.path.join(ROOT, "translate", "gen_unicode.py")], timeout=120, check=False)
     ok, out = coq_make(["Regex/RuleDecision.vo", "Regex/FragParser.vo"])
     if not ok:
         raise Infra("regex model does not compile:\n" + out[-3000:])
